@@ -1,5 +1,9 @@
-"""C19 oracle (instructions vs actual deltas) — installed as a hook on the bench."""
+"""C19 oracle (instructions vs actual deltas) - installed as a hook on the bench."""
 
 
 def install(bench):
+    pass
+
+
+def check_recipe_instructions(run):
     pass
